@@ -28,6 +28,12 @@ LOOPINVS = " Inv_LoopLossless Inv_LastCoherent"
 def run(ctx):
     sd = ctx.stage()
     q = ctx.quick
+    import time
+    t0 = [time.time()]
+
+    def lap(name):
+        ctx.notes.append("%s %.1fs" % (name, time.time() - t0[0]))
+        t0[0] = time.time()
     ctx.assume("marshalled length of a batch.Batch = sum over elements of 1 tag byte + varint(len) + len (checked "
                "against the real gogo-proto marshalizer on every replayed input: Conforms in Trace_Packer)",
                "chunk bound per the code's own measure: SizeDataPacker marshalled bytes < limit, SimpleDataPacker "
@@ -56,11 +62,11 @@ def run(ctx):
     write("r1v.cfg", sizes="1, 126, 127, 128", maxlen=3, lo=250, hi=266, algos='"size", "simple"', rest=INVS + LOOPINVS)
     ctx.tlc(sd, "MC_Packer", "r1v.cfg", timeout=600)
 
+    lap("R1")
     exe = ctx.go_build("vh-packer")
 
     # ---- R2: every enumerated input (+ the transcription's chunking) on the real code; the observations are
     #          validated by TLC (Inv_C32_* evaluated on what the real code returned)
-    total_events = 0
     traces = []
     gens = [("gen.cfg", dict(defects=DEFECT, spec="OneShotSpec", log="LogAppend", rest="ACTION_CONSTRAINT EmitDone",
                              **({} if q else dict(sizes="0, 1, 2, 3, 5, 6", maxlen=5, hi=14, algos='"size"')))),
@@ -80,27 +86,30 @@ def run(ctx):
         tr = ctx.path("trace%d.ndjson" % n)
         h = ctx.vh(exe, ["replay", inp, tr], timeout=900)
         ev = int(h.stats.get("events", 0))
-        total_events += ev
         traces.append((tr, ev))
         ctx.cov(traces_validated_against_impl=int(h.stats.get("inputs", 0)), evaluations=ev,
                 distinct_nontrivial=int(h.stats.get("distinct", 0)),
                 chunking_equals_transcription_as_is=int(h.stats.get("match_as_is", 0)),
                 chunking_equals_intended_design=int(h.stats.get("match_intended", 0)),
                 chunking_equals_neither=int(h.stats.get("match_neither", 0)))
+    lap("R2 export+replay")
     # ---- R3: random inputs at realistic sizes on the real code
     tr = ctx.path("trace-rand.ndjson")
     h = ctx.vh(exe, ["record", ctx.seed, 3000 if q else 30000, tr], timeout=900)
     ev = int(h.stats.get("events", 0))
     traces.append((tr, ev))
     ctx.cov(traces_validated_against_impl=ev, evaluations=ev, distinct_nontrivial=int(h.stats.get("distinct", 0)))
-    # ---- TLC evaluates the property on every observation
-    last_ok = None
-    for tr, ev in traces:
-        st, line = vlib.validate_trace(ctx, sd, "Trace_Packer", "Trace_Packer.cfg", tr, ev, "C32/observed",
-                                       divergence_is_violation=False, what="real packer output", timeout=1200,
-                                       obs_cfg="Trace_PackerObs.cfg")
-        if st == "accepted":
-            last_ok = tr
+    # ---- TLC evaluates the property on every observation (one run over the concatenated observations)
+    allp = ctx.path("observations.ndjson")
+    with open(allp, "w") as f:
+        for tr, ev in traces:
+            f.write(open(tr).read())
+    nev = sum(ev for _, ev in traces)
+    st, line = vlib.validate_trace(ctx, sd, "Trace_Packer", "Trace_Packer.cfg", allp, nev, "C32/observed",
+                                   divergence_is_violation=False, what="real packer output", timeout=1500,
+                                   obs_cfg="Trace_PackerObs.cfg")
+    last_ok = traces[0][0] if st == "accepted" and traces else None
+    lap("TLC on %d observations" % nev)
     if not q and last_ok:
         def lose(evs):
             for e in evs:
